@@ -14,6 +14,8 @@ VERIF = os.path.dirname(os.path.dirname(os.path.abspath(__file__)))
 ap = argparse.ArgumentParser()
 ap.add_argument('sid'); ap.add_argument('--tier', default='quick'); ap.add_argument('--in-place', action='store_true')
 ap.add_argument('--seed', default='0')
+ap.add_argument('--record', action='store_true', help='store the outcome in meta.json')
+ap.add_argument('--note', default='')
 a = ap.parse_args()
 d = os.path.join(VERIF, 'seeded', a.sid)
 meta = json.load(open(os.path.join(d, 'meta.json')))
@@ -41,6 +43,9 @@ caught = p.returncode == 1 and any(l.startswith('VIOLATION') for l in lines)
 print(('CAUGHT' if caught else 'MISSED'), a.sid, prop, a.tier, f'rc={p.returncode}')
 for l in lines[:4]:
     print('   ', l[:260])
+if a.record:
+    meta.setdefault('caught', {})[f'{prop} {a.tier}'] = ('CAUGHT' if caught else 'MISSED') + (': ' + lines[0][:160] if lines else '') + ((' [' + a.note + ']') if a.note else '')
+    json.dump(meta, open(os.path.join(d, 'meta.json'), 'w'), indent=1)
 if not caught:
     print(p.stdout[-600:]); print(p.stderr[-400:])
 sys.exit(0 if caught else 1)
